@@ -407,14 +407,15 @@ Definition m_to_flat (p : chunked) (fields : list string) : res (list nat * list
       end
   end.
 
-(* to_lists(fields): per field, per row the optional list (parent validity NOT applied) *)
+(* to_lists(fields) / get_list_series / iter_field_lists: per field, per row the optional list, WITH the validity of the
+   struct (pc.struct_field): a missing row is a null list whatever its children hold *)
 Definition m_to_lists (p : chunked) (fields : list string) : res (list (list (option (list val)))) :=
   match m_field_names p with
   | Err => Err
   | Ok names =>
       if length fields =? 0 then Err else
       if negb (forallb (has_name names) fields) then Err else
-      Ok (map (fun nm => concat (map (fun c => match sc_field c nm with
+      Ok (map (fun nm => concat (map (fun c => match find (fun f => String.eqb (fname f) nm) (sc_flatten c) with
                                               | Some f => la_lists (farr f)
                                               | None => [] end) (chunks p))) fields)
   end.
